@@ -233,9 +233,14 @@ func runC20Once(t fataler, c c20Case, iter int) string {
 	e.sleep(time.Duration(iter%3) * time.Second)
 	// --- the user closes, as every user must ---
 	closed := e.Call(func() {
-		if c.Final == "Close" {
+		switch c.Final {
+		case "Close":
 			conn.Close(websocket.StatusNormalClosure, "")
-		} else {
+		case "Close-badcode":
+			conn.Close(websocket.StatusCode(1006), "") // returns an error, but must still close everything
+		case "Close-longreason":
+			conn.Close(websocket.StatusNormalClosure, strings.Repeat("r", 124))
+		default:
 			conn.CloseNow()
 		}
 	})
@@ -273,7 +278,7 @@ func TestC20(t *testing.T) {
 			c.Ops = append(c.Ops, op)
 		}
 		c.Ending = rapid.SampledFrom(c20Endings).Draw(rt, "ending")
-		c.Final = rapid.SampledFrom([]string{"Close", "CloseNow"}).Draw(rt, "final")
+		c.Final = rapid.SampledFrom([]string{"Close", "Close", "CloseNow", "CloseNow", "Close-badcode", "Close-longreason"}).Draw(rt, "final")
 		c.Repeat = rapid.SampledFrom([]int{20, 50}).Draw(rt, "repeat")
 		c.Echo = rapid.SampledFrom([]string{"echo", "echo", "none", "invalid"}).Draw(rt, "peerEcho")
 		var msg string
